@@ -20,6 +20,8 @@ import re
 from harness.lib import sx as SX
 
 ID = "C10"
+DISABLED = "work in progress: model and correspondence exist, the invariant proof (C10/Lemmas.v) is being repaired (DESIGN.md section 8, C10)"
+SETUP_SKIP = True
 COQ_DIR = "C10"
 RUN_MOD = "C10.Run"
 MODEL_TARGETS = ["C10/Run.vo"]
